@@ -186,7 +186,10 @@ PROPS = {
                 "liquidity contract of a real node (outcome, new LastEpochUpdate cursor, number of epochs issued), one "
                 "RewardDepositHistory entry credited, the total credited per contract and epoch against the emission recomputed "
                 "from the generated tables, a CollectReward call (refused / amounts of the mint requests), a RewardDeposit "
-                "after it changed, the cursor after a momentum - each replayed through the Lean epoch-cursor model; per "
+                "after it changed, the cursor after a momentum - each replayed through the Lean epoch-cursor model; plus, per rewarded epoch, the inputs "
+                "the contract read (stake entries / sentinel entries from the storage before the block; for pillars the node's "
+                "consensus EpochStats and PillarDelegationsByEpoch with the pillars' percentages and reward addresses) with the "
+                "amounts credited per address, recomputed by the Lean reward arithmetic; per "
                 "history one real chain with 10/15/20-minute epochs over 3-6 epochs (RewardTimeLimit 0..640 s, "
                 "UpdateMinNumMomentums 1..45, slots skipped one time in seven, Update sent by the producing pillar and/or by "
                 "arbitrary users, stakes/sentinels/delegations/balances/pillar percentages and reward addresses changing, a "
@@ -204,8 +207,10 @@ PROPS = {
                 "an in-memory contract storage with generated entries, pillars, give-percentages and backers, reading back "
                 "the RewardDeposit of every address; distinct = distinct (op,result) lines",
         "partial": "the amounts credited per epoch enter the cursor/deposit model as observed inputs (their arithmetic is the "
-                   "rewards-pure part), so 'the total credited per epoch is within the emission' is a theorem about the pure "
-                   "functions plus a per-epoch comparison on real chains, not one end-to-end theorem; 'identical on all nodes' "
+                   "rewards-pure part, re-checked on the real chains' inputs for stake, sentinel and pillar epochs), so 'the "
+                   "total credited per epoch is within the emission' is a theorem about the pure functions plus a per-epoch "
+                   "comparison on real chains, not one end-to-end theorem; the premises of pillar_epoch_bound are monitored on "
+                   "every real epoch's statistics, not proved here; 'identical on all nodes' "
                    "(EpochStats / PillarDelegationsByEpoch read from each node's own consensus cache) is established by the "
                    "follower comparison only, not by a theorem; premises produced<=expected, sum of weights <= total weight, sum "
                    "expected <= MomentumsPerEpoch are consensus facts (C05) taken as hypotheses; exactly-once is false for the "
